@@ -193,7 +193,7 @@ impl Shell {
 
     pub fn addr_of(&self, idx: usize) -> u8 {
         match self.st.conns[idx].local_ip {
-            IpAddr::V4(v4) => v4.octets()[3] - 10,
+            IpAddr::V4(v4) => v4.octets()[3].wrapping_sub(10),
             _ => 255,
         }
     }
